@@ -55,9 +55,22 @@ pub mod h_io {
 pub mod h_err {
     include!(concat!(env!("CHUMSKY_VERIF_DIR"), "/h_err.rs"));
 }
+pub mod h_comp {
+    include!(concat!(env!("CHUMSKY_VERIF_DIR"), "/h_comp.rs"));
+}
+pub mod h_err2 {
+    include!(concat!(env!("CHUMSKY_VERIF_DIR"), "/h_err2.rs"));
+}
+pub mod h_pratt2 {
+    include!(concat!(env!("CHUMSKY_VERIF_DIR"), "/h_pratt2.rs"));
+}
 #[cfg(feature = "memoization")]
 pub mod h_memo {
     include!(concat!(env!("CHUMSKY_VERIF_DIR"), "/h_memo.rs"));
+}
+#[cfg(feature = "memoization")]
+pub mod h_memo2 {
+    include!(concat!(env!("CHUMSKY_VERIF_DIR"), "/h_memo2.rs"));
 }
 pub fn register_all(r: &mut Vec<(&'static str, fn())>) {
     h_comb::register(r);
@@ -79,6 +92,11 @@ pub fn register_all(r: &mut Vec<(&'static str, fn())>) {
     h_io::register(r);
     h_clone::register(r);
     h_iter2::register(r);
+    h_pratt2::register(r);
+    h_err2::register(r);
+    h_comp::register(r);
     #[cfg(feature = "memoization")]
     h_memo::register(r);
+    #[cfg(feature = "memoization")]
+    h_memo2::register(r);
 }
